@@ -127,6 +127,8 @@ class World:
         self.notes = []
         self.recording = True
         self.close_timeout = CLOSE_TIMEOUT
+        self.obtained_tracks = [[], []]
+        self.consumers = [[], []]
         self.broken = None          # an internal the instrumentation relies on is missing: broken correspondence, no verdict
 
     # ---- object graph -> model configuration -------------------------------------------------------
@@ -693,6 +695,20 @@ def _snapshot(world, p):
     }
 
 
+def release_threads():
+    """harness hygiene, after the verdict was taken: a leaked (non-daemon) decoder thread would keep this process from ever
+    exiting - hand it the sentinel it is waiting for"""
+    for th in threading.enumerate():
+        if th.name.endswith("-decoder") and th.is_alive():
+            args = getattr(th, "_args", None) or ()
+            if len(args) > 1 and hasattr(args[1], "put"):
+                try:
+                    args[1].put(None)
+                    th.join(1.0)
+                except Exception:  # noqa: BLE001
+                    pass
+
+
 def _timers(world, p):
     """not-cancelled timer handles of the loop whose callback is bound to an object of peer p"""
     out = []
@@ -932,6 +948,7 @@ def run_case(case):
             pass
         asyncio.set_event_loop(None)
         loop.close()
+        release_threads()
     return {"trace": [world.peers[0].trace, world.peers[1].trace], "closes": world.close_results, "final": final,
             "summary": [summary(world, p, final[p]) for p in (0, 1)],
             "iters": world.iter_total, "notes": world.notes, "secs": round(time.monotonic() - t_start, 2),
